@@ -51,6 +51,8 @@ func main() {
 	case "gcprobe":
 		n, detail := props.GCProbe(16, 250000)
 		fmt.Printf("PROBE observed=%d detail=%s\n", n, detail)
+	case "deepnest":
+		props.DeepNestProbe()
 	case "list":
 		fmt.Println(strings.Join(props.IDs(), " "))
 	default:
